@@ -13,7 +13,9 @@
 (* Lines:  reset | repo {n, par, tab, blk, refs, objs} | prune {objs,      *)
 (* crashed, unus}.  A ref is <<kind, commit, state>>; state 1 = exists,    *)
 (* 0 = deleted again, 2 = ref of an in-progress transaction older than the *)
-(* transaction TTL (gc discards that transaction first, prune does not).   *)
+(* transaction TTL (gc discards that transaction first, prune does not),   *)
+(* 3 = ref of an in-progress transaction older than the DEFAULT TTL but    *)
+(* younger than the TTL the repository / the user configured: a root.      *)
 (*                                                                         *)
 (* Named deviation (constant KnownDeviations, DESIGN.md 4): with "shallow" *)
 (* a run that crashed / kept an unrelated table because a surviving commit *)
@@ -31,7 +33,7 @@ Range(s) == {s[i] : i \in 1..Len(s)}
 ObjsOf(o) == [c |-> Range(o.c), t |-> Range(o.t), ti |-> Range(o.ti),
               p |-> Range(o.p), b |-> Range(o.b), bi |-> Range(o.bi)]
 
-RootsOf(e) == {r[2] : r \in {q \in Range(e.refs) : q[3] = 1 \/ (q[3] = 2 /\ e.mode # "gc")}}
+RootsOf(e) == {r[2] : r \in {q \in Range(e.refs) : q[3] \in {1, 3} \/ (q[3] = 2 /\ e.mode # "gc")}}
 
 RepoOf(e) == [n     |-> e.n,
               par   |-> [x \in 1..e.n |-> Range(e.par[x])],
